@@ -210,6 +210,7 @@ PROPS["C16"] = {
         {"name": "directed", "pkg": "./c16", "run": "^(TestDirected|TestRegress)$"},
     ],
     "assumptions": LP_ASSUME + ["NoColor, default formatters; PartsOrder is a permutation of a subset of the four standard parts",
+                                "colour: with NO_COLOR set the bytes must equal the NoColor rendering; with colour on, the line must equal the NoColor rendering once SGR sequences are removed and runs of spaces squeezed (an empty part still takes a separator when wrapped in colour codes), judged only for events without escape characters",
                                 "field names configured through the globals are valid UTF-8 (otherwise no decoded key can equal them)",
                                 "names and the message are printed verbatim, so 'one line' is checked as: exactly the reference text followed by one newline",
                                 "the parts prefix is compared exactly only when every configured part is present with its usual type (placeholders for absent parts are unspecified)"],
@@ -269,4 +270,14 @@ PROPS["C15"]["jobs"] += _logsched_jobs(3000, 60000)
 for _p in ("C05", "C06", "C13", "C15"):
     PROPS[_p]["assumptions"] = PROPS[_p]["assumptions"] + ["scheduler tier: the root package is rewritten onto the cooperative scheduler (sync.Pool as a LIFO stack, mutexes and atomics as scheduling points); see C10 assumptions"]
 
+# the diode on the Go scheduler itself, natively and as a 32-bit build run on this machine (alignment of
+# 64-bit atomics, int width): schedule-independent invariants only
+for _j in PROPS["C10"]["jobs"]:
+    if _j.get("replay"):
+        _j["replay_skip"] = "realrt"
+PROPS["C10"]["jobs"] = PROPS["C10"]["jobs"] + [
+    {"name": "realrt", "pkg": "./c10rt", "run": "^TestRapidRealRuntime$", "rapid": T(300, 6000), "shards": T(1, 4), "replay": "^TestReplay$", "replay_match": "realrt-amd64"},
+    {"name": "realrt-386", "pkg": "./c10rt", "goarch": "386", "run": "^TestRapidRealRuntime$", "rapid": T(300, 6000), "shards": T(1, 4), "replay": "^TestReplay$", "replay_match": "realrt-386"},
+]
+PROPS["C10"]["assumptions"] = PROPS["C10"]["assumptions"] + ["real-runtime jobs (native and GOARCH=386): only the interleavings the Go scheduler happens to produce; they add the platform dimension (32-bit alignment and int width), not schedule coverage"]
 PROPS["C11"]["jobs"] = PROPS["C11"]["jobs"] + [{"name": "fatal-path", "pkg": "./c11", "run": "^TestFatalDrains$", "timeout": T(600, 600)}]
